@@ -25,11 +25,15 @@ func (w *cworld) record(srv int) {
 
 // concurrent selectors: `threads` threads make `calls` NextServer() calls each on a
 // fixed pool, after `warm` sequential selections.
-func scenario(pool []int, threads, calls, warm int) *sched.Scenario {
-	name := fmt.Sprintf("rr-concurrent/pool=%v/threads=%d/calls=%d/warm=%d", pool, threads, calls, warm)
+func scenario(pool []int, threads, calls, warm int, verbose bool) *sched.Scenario {
+	name := fmt.Sprintf("rr-concurrent/pool=%v/threads=%d/calls=%d/warm=%d/verbose=%v", pool, threads, calls, warm, verbose)
 	sc := &sched.Scenario{Name: name, Bound: -1, Info: map[string]any{"pool": pool, "threads": threads, "calls": calls, "warm": warm}}
 	sc.New = func() *sched.Instance {
-		s := newSys()
+		var opts []roundrobin.LBOption
+		if verbose {
+			opts = append(opts, roundrobin.Verbose(true)) // the logging paths are code too
+		}
+		s := newSys(opts...)
 		for i, w := range pool {
 			s.rr.UpsertServer(serverURL(i), roundrobin.Weight(w))
 			if w == 0 {
@@ -103,11 +107,13 @@ func Scenarios(tier string) []*sched.Scenario {
 	var out []*sched.Scenario
 	for _, p := range pools {
 		for warm := 0; warm <= 2; warm++ {
-			out = append(out, scenario(p, 2, 3, warm))
-			out = append(out, scenario(p, 3, 2, warm))
+			out = append(out, scenario(p, 2, 3, warm, false))
+			out = append(out, scenario(p, 3, 2, warm, warm == 1))
+			out = append(out, scenario(p, 2, 3, warm, true))
 			if tier == "thorough" {
-				out = append(out, scenario(p, 3, 3, warm))
-				out = append(out, scenario(p, 4, 2, warm))
+				out = append(out, scenario(p, 3, 3, warm, false))
+				out = append(out, scenario(p, 3, 2, warm, true))
+				out = append(out, scenario(p, 4, 2, warm, warm == 0))
 			}
 		}
 	}
